@@ -46,7 +46,7 @@ def gen_cfg(rng, focus=None, thorough=False):
     # rounding tolerance (float arguments), typed twins (typed keymaps), string arguments (*args stub)
     tol = rng.choice([None, None, None, 0, 1, 2])
     deep = rng.random() < 0.4
-    stub = 'var' if rng.random() < 0.15 else 'named'
+    stub = rng.choice(['var', 'req2', 'req2'] + ['named'] * 7)
     none_arg = (nargs - 1) if rng.random() < 0.25 else None
     if none_arg is not None and none_arg in raising:
         raising = [a for a in raising if a != none_arg]
@@ -108,7 +108,7 @@ def gen_ops(rng, cfg, n, focus=None):
             nonlocal scan_i
             if allow_special and cfg['special'] and rng.random() < 0.08:
                 return rng.choice(cfg['special'])
-            if allow_special and 'typed' in cfg['keymap'] and cfg.get('stub') != 'var' and rng.random() < focus.get('p_twin', 0.1):
+            if allow_special and 'typed' in cfg['keymap'] and cfg.get('stub') != 'var' and rng.random() < focus.get('p_twin', 0.1) * (2 if cfg.get('stub') == 'req2' else 1):
                 return ('t', rng.randrange(6))
             if allow_special and rng.random() < 0.12:
                 r2 = rng.random()
@@ -116,7 +116,8 @@ def gen_ops(rng, cfg, n, focus=None):
                     return ('f', rng.randrange(5))
                 if r2 < 0.75 and 'typed' in cfg['keymap'] and cfg.get('stub') != 'var':
                     return ('t', rng.randrange(6))
-                if cfg.get('stub') == 'var' and cfg['keymap'] not in ('str', 'str-nf'):
+                if cfg.get('stub') == 'var' and cfg['keymap'] not in ('str', 'str-nf') and cfg['backend'] not in ('dir', 'direct-dir'):
+                    # (a dir_archive stores 0 and '0' in the same directory: known finding K1 of C03)
                     # (under stringmap, str(5) == str('5') for a bare argument: known finding K4 of C10)
                     return ('s', rng.randrange(nargs))
             if mode == 'hot' and rng.random() < 0.7:
